@@ -35,9 +35,9 @@ def plan(tier, seed):
           {"C10_SASL": "0,5", "C10_MECHS": "0,4", "C10_FREEZE": "okform"})
     if not q:
         # partitioned on the first two server choices (connection refused? / greeting behaviour)
-        for x0 in (0, 7):
+        for x0 in (0, 1):
             for x1 in range(5):
-                part = {"C10_X0LO": x0, "C10_X0HI": x0 + 1 if x0 else 7, "C10_X1LO": x1, "C10_X1HI": x1 + 1}
+                part = {"C10_X0LO": x0, "C10_X0HI": x0 + 1, "C10_X1LO": x1, "C10_X1HI": x1 + 1}
                 shape("connect-connect-getscript-%d%d" % (x0, x1), "connect*,connect*,getscript",
                       dict(part, C10_SASL="0,5", C10_MECHS="0,4", C10_FREEZE="okform"))
                 shape("tls-connect-deletescript-%d%d" % (x0, x1), "connect-tls*,connect*,deletescript",
